@@ -7,7 +7,7 @@ for l in open('/verif/seeded/MATRIX.txt'):
     if len(p) >= 3:
         mat.setdefault(p[0], []).append((p[1], p[2], ' '.join(p[3:])))
 out = ["<!-- SEC10-BEGIN -->\n## 10. Seeded changes (from fresh sub-agents) and which checks catch them\n\n"]
-out.append('''Eight rounds of fresh sub-agents (rounds 4 to 8 with requests for changes that need long windows, long streams,
+out.append('''Nine rounds of fresh sub-agents (round 9: C06g, C16h, run at the default seed only; rounds 4 to 8 with requests for changes that need long windows, long streams,
 rare secondary parameters, tiny or huge units, a narrowed counter, f32 only, chains only, clones of clones, never-delivered inner views) were each given only the JSON record of one property and a scratch
 git worktree of /repo (nothing from /verif), and asked for a change that breaks the property while
 compiling and passing the 43 baseline tests, with a demonstration. Every change below was confirmed in a
@@ -18,7 +18,7 @@ after every `fix:` commit), `tools_matrix.sh` applies each to /repo (`git -C /re
 quick checks named, undoes it (`git -C /repo checkout -- .`) and records the outcome in
 `seeded/MATRIX.txt` and `meta.json.detected_by`. The first column of "checks" is the change's own property.
 The matrix below is for the default seed; the same run with `VERIF_SEED=1` (`seeded/MATRIX_seed1.txt`, `MATRIX_OUT=` mode of the
-tool) gives the same picture: 128 of 129 caught by their own property's quick check, the exception again C07b.
+tool) gives the same picture for the 129 changes of rounds 1 to 8: 128 of 129 caught by their own property's quick check, the exception again C07b.
 
 | id | change | needs to manifest | checks (quick tier) | first signature reported |
 |---|---|---|---|---|
